@@ -2253,6 +2253,11 @@ def witness_corpus(clk):
 def correspond_for(ctx, res, prop, driver_file, n_quick, n_thorough):
     impl = Impl(ctx)
     try:
+        entry_lines = 0
+        if prop == "C01":
+            # public calls with a caller-chosen integer (psutil.pid_exists(n), Process(n), Process(n).wait / terminate): the pid
+            # argument of EVERY os.kill they make, signal 0 included (Model/C01Kill.lean, Driver/C01Kill.lean); run first
+            entry_lines = c01_kill.correspond_entry(ctx, res, impl)
         res.rule = ("histories of simulated kernel events (incl. permission changes: the kernel refuses a PID with EPERM/EACCES) "
                     "and psutil calls from 17 clause-directed families "
                     "(PRNG from VERIF_SEED) + the lead witnesses + exhaustive sweeps of short histories; "
@@ -2262,6 +2267,8 @@ def correspond_for(ctx, res, prop, driver_file, n_quick, n_thorough):
                     "clauses proved for such histories — any-state clauses + the recycling clause whenever the PID's stat file opens at the "
                     "moment of the call); "
                     "distinct = distinct op sequences")
+        if prop == "C01":
+            res.rule += c01_kill.RULE_NOTE
         hists = witness_corpus(impl.clk)
         fams = list(FAMILIES)
         if prop == "C01":
@@ -2342,11 +2349,7 @@ def correspond_for(ctx, res, prop, driver_file, n_quick, n_thorough):
                              "" if ctx.tier == "quick" else "; all well-indexed histories of length 3..6 over {spawn 5, spawn 7, reap 5, "
                              "Process(5), process_iter(), terminate(0), terminate(1), is_running(0), is_running(1), ==(0,1)} containing "
                              "a process_iter() (handles from process_iter() on two PIDs)"))
-        if prop == "C01":
-            # public calls with a caller-chosen integer (psutil.pid_exists(n), Process(n)): the pid argument of EVERY
-            # os.kill they make, signal 0 included (Model/C01Kill.lean, Driver/C01Kill.lean)
-            total_lines += c01_kill.correspond_entry(ctx, res, impl)
-        res.extra["driver_lines"] = total_lines
+        res.extra["driver_lines"] = total_lines + entry_lines
         res.extra["clock_ticks"] = impl.clk
     finally:
         impl.close()
